@@ -13,17 +13,25 @@
 // core/protocol.Router ("checked in order of registration; ... only the first to be registered will
 // be invoked", "exact literal match") and host.Host.SetStreamHandler/RemoveStreamHandler):
 //
-//	C07/protocol-not-requested            returned stream's Protocol() is not in the request list
-//	C07/ends-disagree                     handler's stream reports another ID than the dialer's
-//	C07/cross-talk/*                      nonce came back from another stream / unknown or duplicate nonce
-//	C07/wrong-handler/*                   handler that ran is not the one registered for / matching the ID
-//	C07/removed-handler-ran               instance whose removal (or replacement) returned before the open
+//	C07/protocol-not-requested/{eager,lazy}   returned stream's Protocol() is not in the request list
+//	C07/stream-not-bound/{eager,lazy}/{basic,blank}-dialer[/refusal-injected]   returned stream's Protocol() is empty
+//	C07/handler-on-unbound-stream/{basic,blank}-listener[/refusal-injected]     handler ran on a stream with empty Protocol()
+//	C07/ends-disagree/{eager,lazy,unused} handler's stream reports another ID than the dialer's
+//	C07/cross-talk/*                      nonce came back from another stream / unknown or duplicate nonce / extra bytes
+//	C07/wrong-handler/{not-registered,not-matching/<kind>,not-first-registered}
+//	                                      handler that ran is not the one registered for / matching the ID
+//	C07/removed-handler-ran               instance whose removal (or replacement) RETURNED before the open was INVOKED
 //	C07/handler-ran-without-common-protocol, C07/handler-ran-for-failed-open, C07/handler-count
-//	C07/open-succeeded-without-common-protocol   (first use succeeded although nothing matches)
-//	C07/open-failed-with-common-protocol, C07/first-use-failed-although-supported  (liveness, stable
-//	                                       handler set only, fault-free stratum only)
+//	C07/open-succeeded-without-common-protocol/eager   a non-optimistic (fully negotiated) stream was returned
+//	                                      although no possible handler table matches its ID
+//	C07/open-failed-with-common-protocol, C07/first-use-failed-although-supported/{eager,lazy}  (liveness:
+//	                                      no mutation overlapping the open, fault-free stratum only)
 //	C07/scope-while-open/{dialer,listener}, C07/scope-after-close/{dialer,listener}
 //	C07/panic
+//
+// Strata (drawn first): fault-free (4/5) and one injected resource-manager refusal of SetProtocol on either
+// node (1/5; an open may then fail, liveness oracles and "handler ran for a failed open" are off, every
+// safety oracle stays on).
 //
 // Weaker readings taken (guide rule 6):
 //   - "fails at the latest on first use": an optimistic Write cannot know the answer; first use is the
@@ -42,10 +50,37 @@
 // Not covered: limited (relayed) connections, wire faults on the identify push (staleness is produced by
 // racing the push, by link latency and by mutating through Host.Mux(), which emits no event).
 //
-// Sensitivity (mutations applied one at a time to a private copy of the generated overlay; class that
-// caught each): see the block at the end of this comment, filled in after the runs.
+// Sensitivity. Each mutation was applied alone to a private copy of the generated overlay (instrumented
+// /repo files) or of the instrumented go-multistream copy (private -modfile), built like ./check builds,
+// and run on 6 workers; "after" = total runs of all workers until the first report (all < 10 s wall unless
+// noted). MUTATIONS-TRIED (15 tried, 15 caught, 0 missed):
 //
-// MUTATIONS-TRIED: (filled below)
+//	m1  basic NewStream eager path: SetProtocol(pids[0]) instead of the negotiated ID      [should-catch]
+//	      -> C07/ends-disagree/eager (+ open-succeeded-without-common-protocol/eager, handler-ran-without-common-protocol); ~90 runs
+//	m2  basic NewStream known-protocol (lazy) path skips SetProtocol                        [should-catch]
+//	      -> C07/stream-not-bound/lazy/basic-dialer; ~10 runs
+//	m3  SetStreamHandler registers exact IDs with a prefix match (lookup by prefix)         [should-catch]
+//	      -> C07/handler-ran-without-common-protocol, C07/wrong-handler/not-matching/exact, open-succeeded-without-common-protocol/eager; ~50 runs
+//	m4  basic newStreamHandler dispatches although SetProtocol failed                       [should-catch]
+//	      -> C07/handler-on-unbound-stream/basic-listener/refusal-injected (fault stratum); ~130 runs
+//	m5  streamWrapper gets its own Protocol() returning a constant                          [should-catch]
+//	      -> C07/ends-disagree/lazy, C07/protocol-not-requested/lazy, C07/scope-while-open/dialer; ~10 runs
+//	m6  RemoveStreamHandler does not remove from the mux -> C07/removed-handler-ran (+ open-succeeded-without-common-protocol/eager); ~140 runs
+//	m7  multistream Negotiate returns the handler's registered name instead of the proposed ID -> C07/ends-disagree/{eager,lazy,unused}; ~20 runs
+//	m8  multistream findHandler prefers the last registered handler -> C07/wrong-handler/not-first-registered; ~40 runs
+//	m9  preferredProtocol ignores the request list (takes any known protocol) -> C07/protocol-not-requested/lazy; ~10 runs
+//	m10 swarm Stream.SetProtocol records the ID without charging the scope -> C07/scope-while-open/{dialer,listener}; ~6 runs
+//	m11 swarm Conn.removeStream never calls scope.Done -> C07/scope-after-close/{dialer,listener}; ~6 runs
+//	m12 multistream client treats "na" as acceptance -> C07/open-succeeded-without-common-protocol/eager; ~20 runs
+//	m13 blank NewStream drops the SetProtocol error (the code before /repo 53b34e0) -> C07/stream-not-bound/eager/blank-dialer/refusal-injected; ~480 runs
+//	m14 blank newStreamHandler drops the SetProtocol error (before 53b34e0) -> C07/handler-on-unbound-stream/blank-listener/refusal-injected;
+//	      ~9 700 runs / 30 s (needs blank listener + refusal on the listener hitting the user stream + handler registered through Mux())
+//	m15 multistream AddHandlerWithFunc does not replace a handler of the same name -> C07/removed-handler-ran; ~15 runs
+//
+// Not caught by design: identify never pushing protocol changes (the statement allows stale knowledge to fail at first use).
+//
+// Genuine defect found on the tree before 53b34e0 (now fixed there): the blank host ignored a refused
+// Stream.SetProtocol on both the dialing and the accepting side (classes of m13/m14).
 package c07
 
 import (
@@ -126,6 +161,7 @@ const (
 	useNormal     = 0 // Write(nonce); Read(reply); hold; end
 	useCloseWrite = 1 // Write(nonce); CloseWrite; Read(reply); hold; end
 	useUnused     = 2 // no I/O at all, end immediately
+	useDuplex     = 3 // first Read (own task) and first Write race; hold; end
 )
 
 type openPlan struct {
@@ -272,7 +308,7 @@ func drawPlan(g simrt.Gen) plan {
 		unusedGiven := false
 		for i := 0; i < no; i++ {
 			op := openPlan{req: drawReq(g, live)}
-			op.use = g.Weighted(8, 2, 1)
+			op.use = g.Weighted(8, 2, 1, 2)
 			if op.use == useUnused {
 				if unusedGiven {
 					op.use = useNormal // at most one unused open per round (attribution of nonce-less handler runs)
@@ -526,13 +562,30 @@ func (w *world) open(op *openRec, rel <-chan struct{}, reached func()) {
 		return
 	}
 	s.SetDeadline(time.Now().Add(30 * time.Second))
-	_, werr := s.Write([]byte(op.nonce))
-	if werr == nil && op.plan.use == useCloseWrite {
-		s.CloseWrite()
-	}
-	var rerr error
-	if werr == nil {
-		op.reply, rerr = readLine(s)
+	var werr, rerr error
+	if op.plan.use == useDuplex {
+		// the first Read is issued by another task and may come before, during or after the first Write
+		type rd struct {
+			line string
+			err  error
+		}
+		rc := make(chan rd, 1)
+		simrt.GoNamed(fmt.Sprintf("reader%d", op.idx), func() {
+			l, e := readLine(s)
+			simrt.Send("c07.reader.done", (chan<- rd)(rc), rd{l, e})
+		})
+		simrt.Yield("c07.open.duplex")
+		_, werr = s.Write([]byte(op.nonce))
+		r := simrt.Recv("c07.open.reader", (<-chan rd)(rc))
+		op.reply, rerr = r.line, r.err
+	} else {
+		_, werr = s.Write([]byte(op.nonce))
+		if werr == nil && op.plan.use == useCloseWrite {
+			s.CloseWrite()
+		}
+		if werr == nil {
+			op.reply, rerr = readLine(s)
+		}
 	}
 	op.useDone = simrt.Stamp()
 	if werr != nil || rerr != nil {
